@@ -8,3 +8,5 @@ import DiplomatModel.Props.C16
 #print axioms DiplomatModel.Props.C16.owned_null
 #print axioms DiplomatModel.Props.C16.validUtf8_iff
 #print axioms DiplomatModel.Props.C16.validUtf8_bytes
+#print axioms DiplomatModel.Props.C16.js_str8_length_exact
+#print axioms DiplomatModel.Props.C16.js_str8_is_str
